@@ -35,6 +35,13 @@ IsPrefix(a, b) == Len(a) <= Len(b) /\ a = SubSeq(b, 1, Len(a))
 CanonScene(s) == [i \in DOMAIN s |-> IF i <= 3 /\ s[i] # 0 THEN 1 ELSE s[i]]
 
 Chunks(p) == [i \in 1..(Len(p) \div ObjSize) |-> SubSeq(p, (i - 1) * ObjSize + 1, i * ObjSize)]
+\* Floats are opaque bit patterns, with one exclusion: signalling NaNs (exponent all ones, quiet bit clear, mantissa
+\* not zero).  Go's reflective encoding/binary moves float32 through float64, which quiets them on amd64 - platform
+\* behaviour, not polyform's.  at = index of the float's first (least significant) byte.
+SNaNAt(p, at) ==
+    /\ p[at + 3] % 128 = 127 /\ p[at + 2] >= 128 /\ (p[at + 2] % 128) < 64
+    /\ ((p[at + 2] % 64) # 0 \/ p[at + 1] # 0 \/ p[at] # 0)
+HasSNaN(p) == \E k \in 0..((Len(p) \div ObjSize) - 1), f \in 0..6 : SNaNAt(p, k * ObjSize + 2 + 4 * f)
 RECURSIVE Flat(_)
 Flat(s) == IF s = <<>> THEN <<>> ELSE Head(s) \o Flat(Tail(s))
 
